@@ -25,6 +25,7 @@ type c12truth struct {
 	ptIsEnd  bool       // the point is an input endpoint
 	ends     [2]exact.P // overlap endpoints
 	crossAbs *big.Rat   // |d1 x d2| for proper crossings
+	huge     bool       // ordinates beyond 1e100: a reported crossing must still be finite
 }
 
 func c12Exact(s1, s2 seg) c12truth {
@@ -180,10 +181,17 @@ func c12Robust(c *fw.Ctx, s1, s2 seg, a, b, cc, d geom.Coord, tr c12truth, locat
 				c.Fail("endpoint-not-exact", "segments meet at the endpoint (%v %v) but the reported point is %s", exact.F64(tr.pt.X), exact.F64(tr.pt.Y), fw.Fs(p[:2]))
 				return false
 			}
-		} else if locate {
+		} else if locate || tr.huge {
 			if math.IsNaN(p[0]) || math.IsNaN(p[1]) || math.IsInf(p[0], 0) || math.IsInf(p[1], 0) {
 				c.Fail("point-inaccurate", "reported crossing point %s is not finite", fw.Fs(p[:2]))
 				return false
+			}
+			if !locate {
+				// beyond 1e154 the products the location formula needs overflow; as the
+				// code stands it then reports one of the four end points, which need not
+				// lie in the other segment's envelope (DESIGN 4b).  Only finiteness is
+				// demanded there; the classification above is exact at any magnitude.
+				return true
 			}
 			if !inEnvelope(p, s1) || !inEnvelope(p, s2) {
 				c.Fail("point-outside-envelope", "reported crossing point %s lies outside a segment's envelope", fw.Fs(p[:2]))
@@ -232,6 +240,11 @@ func c12CheckPair(c *fw.Ctx, s1, s2 seg, locate, nonRobust bool) {
 	}
 	c.SetInput(c12Desc(s1, s2))
 	tr := c12Exact(s1, s2)
+	for _, v := range []float64{s1.a[0], s1.a[1], s1.b[0], s1.b[1], s2.a[0], s2.a[1], s2.b[0], s2.b[1]} {
+		if math.Abs(v) > 1e100 {
+			tr.huge = true
+		}
+	}
 	c.Count("class_" + tr.class)
 	mk := func(p [2]float64) geom.Coord {
 		if c.R.Chance(1, 3) {
@@ -438,6 +451,35 @@ func c12FloatT(c *fw.Ctx, idx int) {
 	c.Distinct(fmt.Sprintf("floatT/%v/%v", s2, a))
 }
 
+// (v) the constructed configurations scaled by a power of two between 2^400 and
+// 2^1000 (1e120 .. 1e301): scaling by a power of two is exact, so the exact
+// answer is the same, while products of two ordinates overflow a double.
+// Classification, exact end points and exact overlaps are judged as always; a
+// reported crossing must be finite.
+func c12Huge(c *fw.Ctx, idx int) {
+	r := c.R
+	s1, s2 := c12Construct(r, 32)
+	k := r.Range(400, 1000)
+	if r.Chance(1, 3) {
+		k = []int{511, 512, 513, 520, 1000, 1010, 1015}[r.Intn(7)]
+	}
+	sc := func(p [2]float64) [2]float64 { return [2]float64{math.Ldexp(p[0], k), math.Ldexp(p[1], k)} }
+	f1, f2 := seg{sc(s1.a), sc(s1.b)}, seg{sc(s2.a), sc(s2.b)}
+	if f1.a == f1.b || f2.a == f2.b {
+		c.Count("skipped_degenerate")
+		return
+	}
+	for _, v := range []float64{f1.a[0], f1.a[1], f1.b[0], f1.b[1], f2.a[0], f2.a[1], f2.b[0], f2.b[1]} {
+		if math.IsInf(v, 0) {
+			c.Count("skipped_degenerate")
+			return
+		}
+	}
+	c.Count("huge_magnitude_pairs")
+	c.Distinct(fmt.Sprintf("huge/%d/%v/%v", k, s1, s2))
+	c12CheckPair(c, f1, f2, false, false)
+}
+
 func c12Float(c *fw.Ctx, idx int) {
 	r := c.R
 	s1, s2 := c12Construct(r, 32)
@@ -488,6 +530,7 @@ func init() {
 			{Name: "grid", Quick: 100000, Thorough: 3000000, Run: c12Grid},
 			{Name: "float", Quick: 80000, Thorough: 2000000, Run: c12Float},
 			{Name: "float-t-junction", Quick: 12000, Thorough: 600000, Run: c12FloatT},
+			{Name: "huge-magnitude", Quick: 20000, Thorough: 500000, Run: c12Huge},
 		},
 		Require: []string{"class_proper-crossing", "class_t-junction", "class_endpoint-endpoint", "class_collinear-overlap", "class_collinear-touching", "class_collinear-disjoint", "class_parallel", "class_disjoint", "crossings_located", "float_pairs"},
 	})
